@@ -1516,6 +1516,19 @@ CLASS_HEADERS = {
     ('pyramid/config/predicates.py', 'not_'): ([], [], []),
     ('pyramid/predicates.py', 'CustomPredicate'): ([], [], []),
     ('pyramid/predicates.py', 'Notted'): ([], [], []),
+    # classes whose attributes the table reads or whose state the lookup uses: exact class-level statements, so that
+    # no mutable (shared) class-level attribute and no rebinding can appear unnoticed
+    ('pyramid/registry.py', 'Registry'): ([], ['Components', 'dict'],
+                                          ['has_listeners = False', '_settings = None',
+                                           'settings = property(_get_settings, _set_settings)']),
+    ('pyramid/router.py', 'Router'): (['implementer(IRouter)'], [], ['debug_notfound = False', 'debug_routematch = False']),
+    ('pyramid/security.py', 'SecurityAPIMixin'): ([], [], []),
+    ('pyramid/request.py', 'Request'): (['implementer(IRequest)'],
+                                        ['BaseRequest', 'URLMethodsMixin', 'CallbackMethodsMixin', 'InstancePropertyMixin',
+                                         'LocalizerRequestMixin', 'SecurityAPIMixin', 'AuthenticationAPIMixin',
+                                         'ViewMethodsMixin'],
+                                        ['exception = None', 'exc_info = None', 'matchdict = None', 'matched_route = None',
+                                         'request_iface = IRequest', 'ResponseClass = Response']),
 }
 for _c in ('XHRPredicate', 'RequestMethodPredicate', 'PathInfoPredicate', 'RequestParamPredicate', 'HeaderPredicate',
            'AcceptPredicate', 'ContainmentPredicate', 'MatchParamPredicate', 'PhysicalPathPredicate',
